@@ -1,0 +1,19 @@
+//go:build verif
+
+package diskpacked
+
+import "os"
+
+// VerifSetPunchHole replaces the function (*storage).delete calls to reclaim
+// the bytes of a removed blob (nil: always zero-fill) and returns the previous
+// one. It lets a harness observe the pack files at the real boundaries of a
+// removal's writes. Not safe for concurrent use with RemoveBlobs.
+func VerifSetPunchHole(f func(file *os.File, offset, size int64) error) func(file *os.File, offset, size int64) error {
+	prev := punchHole
+	punchHole = f
+	return prev
+}
+
+// VerifErrNoPunch is the error a punchHole function returns to make delete
+// fall back to filling the range with zero bytes.
+var VerifErrNoPunch = errNoPunch
